@@ -557,6 +557,20 @@ fn scratch_dir() -> PathBuf {
 	base.join(format!("verif-c16-{}", std::process::id()))
 }
 
+/// removes scratch directories left behind by runs of this checker that ended abnormally
+fn remove_stale_scratch() {
+	let Some(parent) = scratch_dir().parent().map(|p| p.to_path_buf()) else { return };
+	let Ok(rd) = std::fs::read_dir(&parent) else { return };
+	for e in rd.flatten() {
+		let name = e.file_name().to_string_lossy().into_owned();
+		if let Some(pid) = name.strip_prefix("verif-c16-").and_then(|p| p.parse::<u32>().ok()) {
+			if pid != std::process::id() && !Path::new(&format!("/proc/{pid}")).exists() {
+				let _ = std::fs::remove_dir_all(e.path());
+			}
+		}
+	}
+}
+
 fn make_env(dir: &Path, k: usize, tier: &'static str) -> WorkerEnv {
 	let page_path = dir.join(format!("w{k}.page"));
 	let page = Page::map(&page_path, true).unwrap_or_else(|e| vcore::machinery_fail(&e));
@@ -741,6 +755,7 @@ fn main() {
 		use rayon::prelude::*;
 		specs.par_iter().map(|s| Space::open(s, thorough).unwrap_or_else(|e| vcore::machinery_fail(&format!("space {s}: {e}")))).collect()
 	};
+	remove_stale_scratch();
 	let dir = scratch_dir();
 	let _ = std::fs::remove_dir_all(&dir);
 	std::fs::create_dir_all(&dir).unwrap_or_else(|e| vcore::machinery_fail(&format!("{dir:?}: {e}")));
